@@ -603,7 +603,9 @@ class SymEnv:
     symbolic = True
     TWIN = False      # reachability twin: the first check site reached is replaced by False
 
-    def __init__(self, stats: Stats, prefix, timeout_ms=20000):
+    fallback_timeout_ms = 120000
+
+    def __init__(self, stats: Stats, prefix, timeout_ms=3000):
         self.stats = stats
         self.solver = z3.Solver()
         self.solver.set('timeout', timeout_ms)
@@ -623,6 +625,17 @@ class SymEnv:
     def _check(self, *extra):
         t = _time.perf_counter()
         r = self.solver.check(*extra)
+        if r == z3.unknown:
+            # the incremental core gave up: one-shot solver (full preprocessing) on the same query
+            self.stats.notes['__fallback_queries'] = self.stats.notes.get('__fallback_queries', 0) + 1
+            s2 = z3.Solver()
+            s2.set('timeout', self.fallback_timeout_ms)
+            s2.add(self.solver.assertions())
+            s2.add(*extra)
+            r = s2.check()
+            if r == z3.sat:
+                # make the model available through the main solver interface
+                self._fallback_model = s2.model()
         self.stats.solver_s += _time.perf_counter() - t
         self.stats.queries += 1
         if r == z3.sat:
@@ -814,49 +827,45 @@ class SymEnv:
         model = self.model(extra)
         raise ViolationFound(label, model, info)
 
+    def _one_shot_model(self, constraints, timeout_ms=30000):
+        s2 = z3.Solver()
+        s2.set('timeout', timeout_ms)
+        s2.add(self.solver.assertions())
+        s2.add(*constraints)
+        return s2.model() if s2.check() == z3.sat else None
+
     def model(self, extra=None):
         """Concrete values for all declared variables (regularised to dyadic rationals when
         possible so that they are exact floats)."""
-        s = self.solver
-        s.push()
-        try:
-            if extra is not None:
-                s.add(extra)
-            reals = [v for v in self.vars.values() if z3.is_real(v)]
-            got = None
-            for denom in (4, 64, 1024, 1 << 20):
-                s.push()
-                for i, v in enumerate(reals):
-                    k = z3.Int(f"__dy{i}")
-                    s.add(v * denom == z3.ToReal(k))
-                    s.add(v <= 1 << 20, v >= -(1 << 20))
-                try:
-                    r = s.check()
-                    if r == z3.sat:
-                        got = s.model()
-                        break
-                finally:
-                    s.pop()
+        base = [] if extra is None else [extra]
+        reals = [v for v in self.vars.values() if z3.is_real(v)]
+        got = None
+        for denom in (4, 64, 1024, 1 << 20):
+            cons = list(base)
+            for i, v in enumerate(reals):
+                k = z3.Int(f"__dy{i}")
+                cons += [v * denom == z3.ToReal(k), v <= 1 << 20, v >= -(1 << 20)]
+            got = self._one_shot_model(cons, 10000)
+            if got is not None or not reals:
+                break
+        if got is None:
+            got = self._one_shot_model(base, 120000)
             if got is None:
-                if s.check() != z3.sat:
-                    raise Inconclusive("model extraction failed")
-                got = s.model()
-            out = {}
-            for n, v in self.vars.items():
-                val = got.eval(v, model_completion=True)
-                if z3.is_bool(v):
-                    out[n] = bool(z3.is_true(val))
-                elif z3.is_int(v):
-                    out[n] = val.as_long()
-                elif z3.is_real(v):
-                    out[n] = str(Fraction(val.numerator_as_long(), val.denominator_as_long()))
-                else:
-                    out[n] = val.as_string()
-            return {'vars': out,
-                    'decisions': [d for d, t in self.trace if t.startswith('choose:')],
-                    }
-        finally:
-            s.pop()
+                raise Inconclusive("model extraction failed")
+        out = {}
+        for n, v in self.vars.items():
+            val = got.eval(v, model_completion=True)
+            if z3.is_bool(v):
+                out[n] = bool(z3.is_true(val))
+            elif z3.is_int(v):
+                out[n] = val.as_long()
+            elif z3.is_real(v):
+                out[n] = str(Fraction(val.numerator_as_long(), val.denominator_as_long()))
+            else:
+                out[n] = val.as_string()
+        return {'vars': out,
+                'decisions': [d for d, t in self.trace if t.startswith('choose:')],
+                }
 
 
 class ReplayMismatch(Exception):
@@ -942,7 +951,7 @@ class ConcreteEnv:
 # exploration of one shard
 
 def explore(scenario, params, *, max_paths=None, max_violations=3, deadline=None,
-            solver_timeout_ms=20000, collect_samples=2):
+            solver_timeout_ms=3000, collect_samples=2):
     """
     Depth-first exploration of scenario(env, **params) by re-execution.
 
